@@ -433,6 +433,13 @@ def handle (w : List String) : String :=
       if old.length < 2 then joinSp ((richErrShort cabsF (fb eps) (fb fact) new steps).map toHex)
       else joinSp ((richErrMain cabsF (fb eps) 10.0 (fb fact) new old).map toHex)
     | _ => "bad-op"
+  -- radrun numExtrap d s p d s p …  (per iteration: fftDegenerate fftSmaller poor): iterations converged dirChanges degenerate numChanges sqrtCount
+  | "radrun" :: ne :: rest =>
+    let rec ins : List String → List RadIn
+      | a :: b :: c :: r => ⟨a == "1", b == "1", c == "1"⟩ :: ins r
+      | _ => []
+    let (it, conv, st) := radRun ne.toNat! radInit 0 (ins rest)
+    s!"{it} {b2s conv} {st.dirChanges} {b2s st.degenerate} {st.numChanges} {st.sqrtCount}"
   -- dea3 <eps> <tiny> e0 e1 e2  (Float, bit patterns)
   | ["dea3", eps, tiny, a, b, c] =>
     let (r, e) := Gen.dea3_elem (floatConsts (fb eps) (fb tiny)) (fb a) (fb b) (fb c)
